@@ -1000,6 +1000,9 @@ def run_named_mul(d):
                 'PointSequence', curve=name, kp=kp, count=cnt)
     _check_table(libcall(ec.PointTable, lp, cnt), R, P, cnt, p, curve=name, kp=kp)
     cls.append('named-sequence/table')
+    if cnt > 40:
+      nt = True
+      cls.append('named-long-sequence')
   return {'nt': nt, 'cls': sorted(set(cls))}
 
 
@@ -1014,6 +1017,19 @@ def strat_named_mul(tier):
       'mpz': st.booleans(),
       'deep': st.integers(0, 15).map(lambda v: v == 0),
   })
+
+
+def enum_named_long_sequences(tier):
+  """PointSequence / PointTable lengths around powers of two (block boundaries of any batched conversion)."""
+  counts = set()
+  for k in range(5, 12 if tier == 'quick' else 14):
+    counts.update((2**k - 1, 2**k, 2**k + 1))
+  counts.update((1000, 1536, 2049) if tier == 'quick' else (1000, 1536, 3073, 5000, 3 * 1024 + 1))
+  curves = NAMED_LIST[:2] if tier == 'quick' else NAMED_LIST
+  for c in curves:
+    for i, cnt in enumerate(sorted(counts)):
+      yield {'curve': c, 'point': [['raw', 1], ['rand', cnt], ['raw', -1]][i % 3], 'ks': [], 'count': cnt,
+             'mpz': bool(i % 2), 'deep': False}
 
 
 def run_named_bmg(d):
@@ -1213,6 +1229,8 @@ ARMS = [
         doc='the fixed edge operands/scalars of the statement on all nine curves'),
     Arm('named_affine', run_named_affine, strategy=strat_named_affine, quick=1600, thorough=30000,
         weight=5),
+    Arm('named_long_sequences', run_named_mul, enumerate=enum_named_long_sequences, exhaustive=True, weight=4,
+        doc='PointSequence/PointTable of 2^k-1, 2^k, 2^k+1 points (k = 5..11, thorough ..13) on named curves'),
     Arm('named_multiply', run_named_mul, strategy=strat_named_mul, quick=1200, thorough=20000,
         weight=5),
     Arm('named_batch_multiply_g', run_named_bmg, strategy=strat_named_bmg, quick=800,
